@@ -153,7 +153,7 @@ def run(c):
         c.need(cat)
     try:
         ws = (2, 4, 16) if c.quick else (1, 2, 4, 8, 16)
-        rounds = 4 if c.quick else 40
+        rounds = 10 if c.quick else 60
         conns = 64
         kinds_seen = set()
         total_cmp = total_bytes = 0
